@@ -615,6 +615,8 @@ class World:
         kind = rm.kind
         elems = []
         shapes = spec.get("shapes") or [0]
+        # elements that cannot be unpacked into a call are accounted for when they are pulled: only where pulls and calls are observable
+        unc_ok = not spec.get("as_list") and not rm.spec.get("plain")
         for j in range(n):
             s = Sentinel(f"r{rm.rid}e{j}")
             shape = shapes[j % len(shapes)]
@@ -623,11 +625,14 @@ class World:
                 elems.append([("m", s, j), ["m", s, j], {"s": s, "j": j}, f"r{rm.rid}e{j}", None, AnyEq(f"r{rm.rid}e{j}"), 0][shape % 7])
             elif kind == "starmap":
                 # func(*x) for any iterable x: a dict contributes its keys, a string its characters
-                elems.append([("m", s, j), ["m", s], {s: 1, Sentinel(f"r{rm.rid}f{j}"): 2}, "ab", ()][shape % 5])
+                # shape 5: not iterable - func(*7) raises TypeError before func is even entered: a failing call like any other
+                elems.append([("m", s, j), ["m", s], {s: 1, Sentinel(f"r{rm.rid}f{j}"): 2}, "ab", (), 7 if unc_ok else ()][shape % 6])
             else:
                 import types as _t
+                # shape 6: no mapping - func(**[...]) raises TypeError before func is entered
                 elems.append([{"s": s, "j": j}, _t.MappingProxyType({"s": s}), {}, {"s": s, "j": j}, StrMapping({"k": s}),
-                              {"func": s, "group_name": j, "self": None, "args": (), "kwargs": {}}][shape % 6])
+                              {"func": s, "group_name": j, "self": None, "args": (), "kwargs": {}},
+                              [("a", 1)] if unc_ok else {}][shape % 7])
         rm.elements = elems
         pull_ops = spec.get("pull_ops") or {}
         raise_at = spec.get("raise_at", -1)
@@ -655,7 +660,15 @@ class World:
                     finally:
                         world.in_user -= 1
                         rm.in_pull = False
-                    yield elems[j]
+                    el = elems[j]
+                    if (kind == "starmap" and isinstance(el, int)) or (kind == "doublestarmap" and isinstance(el, list)):
+                        # the call the pool is about to attempt cannot succeed: accounted for as a call that raised
+                        rec = CallRec(rm, len(rm.calls), (), {}, True, world.opno)
+                        rec.uncallable = True
+                        rm.calls.append(rec)
+                        rm.pm.fault_seen = True
+                        world.label("fault:element-cannot-be-unpacked")
+                    yield el
                 rm.exhausted = True
                 world.ev(f"exhausted r{rm.rid}")
             finally:
